@@ -176,3 +176,76 @@ contract(IP + '_analyze_node',
 def all_types_named(obj):
     """data invariant used by diagnostics: an unresolved type still carries its C or GType spelling"""
     return True
+
+contract(IP + '_introspectable_callable_analysis',
+         params={'self': 'IntrospectablePass', 'obj': 'Node', 'stack': 'list[Class|Interface]'}, returns='bool',
+         ghost={'J': 'int'}, props=('C05',), chunks=2,
+         modifies=['obj.introspectable', 'obj.emitter', 'LOGGER._warning_count'],
+         raises={'KeyError': 'True', 'IndexError': 'isinstance(obj, ast.Signal)'},
+         requires=['implies(isinstance(obj, ast.Callable), obj.retval is not None)'],
+         loops={
+             1: {'invariant': ['obj.introspectable == old(obj.introspectable)',
+                               'implies(0 <= J and J < I1 and shallow(%s.type), TI(self, %s.type))' % (PJ, PJ)],
+                 'modifies': []},
+             2: {'invariant': [COUNT_MONO], 'modifies': ['obj.emitter', 'LOGGER._warning_count']},
+             3: {'invariant': [COUNT_MONO], 'modifies': []},
+         },
+         ensures={
+             'C05.callable.params_introspectable': 'implies(not obj.skip and isinstance(obj, ast.Callable) and obj.introspectable and '
+                                                   '%s and shallow(%s.type), TI(self, %s.type))' % (J_IN_PARAMS, PJ, PJ),
+             'C05.callable.return_introspectable': 'implies(not obj.skip and isinstance(obj, ast.Callable) and obj.introspectable and '
+                                                   'shallow(obj.retval.type), TI(self, obj.retval.type))',
+             'C05.callable.inline_not_introspectable': 'implies(not obj.skip and isinstance(obj, ast.Function) and obj.is_inline, '
+                                                       'not obj.introspectable)',
+             'C05.callable.monotone': 'implies(obj.introspectable, old(obj.introspectable))',
+             'C05.callable.skipped_untouched': 'implies(obj.skip, obj.introspectable == old(obj.introspectable) and result == False)',
+         },
+         note='IndexError: the emitter comparison indexes method.parameters[idx + 1] (see DESIGN.md, observation O1)')
+
+contract(IP + '_propagate_callable_skips',
+         params={'self': 'IntrospectablePass', 'obj': 'Node', 'stack': 'list'}, returns='bool',
+         ghost={'J': 'int'}, props=('C05',),
+         modifies=['obj.skip'], raises={'KeyError': 'True'},
+         requires=['implies(isinstance(obj, ast.Callable), obj.retval is not None)'],
+         loops={1: {'invariant': ['implies(old(obj.skip), obj.skip)',
+                                  'implies(0 <= J and J < I1 and %s.type.target_giname is not None and '
+                                  'self._transformer.lookup_typenode(%s.type) is not None and '
+                                  'self._transformer.lookup_typenode(%s.type) is not obj and '
+                                  'self._transformer.lookup_typenode(%s.type).skip, obj.skip)' % (PJ, PJ, PJ, PJ)],
+                    'modifies': ['obj.skip']}},
+         ensures={
+             'C05.skips.param_target_skipped': 'implies(isinstance(obj, ast.Callable) and %s and %s.type.target_giname is not None and '
+                                               'self._transformer.lookup_typenode(%s.type) is not None and '
+                                               'self._transformer.lookup_typenode(%s.type) is not obj and '
+                                               'self._transformer.lookup_typenode(%s.type).skip, obj.skip)' % (J_IN_PARAMS, PJ, PJ, PJ, PJ),
+             'C05.skips.monotone': 'implies(old(obj.skip), obj.skip)',
+             'C05.skips.walks_on': 'result == True',
+         })
+
+# ------------------------------------------------------------------------------------------------
+# index cross references: closure / destroy / length indices name existing parameters or fields
+contract('giscanner.ast.Callable.get_parameter_index',
+         params={'self': 'Callable', 'name': 'str?'}, returns='int', ghost={'J': 'int'}, props=('C05', 'C01'),
+         raises={'ValueError': 'implies(0 <= J and J < len(self.parameters), self.parameters[J].argname != name)'},
+         loops={1: {'invariant': ['implies(0 <= J and J < I1, self.parameters[J].argname != name)'], 'modifies': []}},
+         ensures={
+             'C05.index.param_in_range': '0 <= result and result < len(self.parameters)',
+             'C05.index.param_names_it': 'self.parameters[result].argname == name',
+             'C05.index.param_first': 'implies(0 <= J and J < result, self.parameters[J].argname != name)',
+         })
+contract('giscanner.ast.Compound.get_field_index',
+         params={'self': 'Compound', 'name': 'str?'}, returns='int', ghost={'J': 'int'}, props=('C05', 'C01'),
+         raises={'ValueError': 'implies(0 <= J and J < len(self.fields), self.fields[J].name != name)'},
+         loops={1: {'invariant': ['implies(0 <= J and J < I1, self.fields[J].name != name)'], 'modifies': []}},
+         ensures={
+             'C05.index.field_in_range': '0 <= result and result < len(self.fields)',
+             'C05.index.field_names_it': 'self.fields[result].name == name',
+             'C05.index.field_first': 'implies(0 <= J and J < result, self.fields[J].name != name)',
+         })
+contract('giscanner.ast.Compound.get_field',
+         params={'self': 'Compound', 'name': 'str?'}, returns='Field', ghost={'J': 'int'}, props=('C05', 'C01'),
+         raises={'ValueError': 'implies(0 <= J and J < len(self.fields), self.fields[J].name != name)'},
+         loops={1: {'invariant': ['implies(0 <= J and J < I1, self.fields[J].name != name)'], 'modifies': []}},
+         ensures={'C05.index.get_field_names_it': 'result.name == name'})
+inline('giscanner.ast.Callable.parameters', 'giscanner.ast.Callable._get_parameters', 'giscanner.ast.Callable._get_retval',
+       'giscanner.ast.Callable._get_instance_parameter', 'giscanner.ast.Parameter.name')
